@@ -21,11 +21,16 @@ s = open(p).read()
 marker = "## 7. Seeded changes and which check catches them"
 i = s.index(marker)
 MISSES = """
-All 48 seeds are caught by a registered check at its quick or thorough tier. Six of them (C11-C, C12-A, C12-B, C14-A,
-C14-B, C18-B) were missed by the first version of the checks; what closed each gap: map identity in the palette side
-table (C11-C), concrete boundary values plus the chunk-list harness and a counting allocator for native replay (C12-A,
-C12-B), harness readers modelling `read_exact` and the checked cut of `io::Error`'s Custom drop glue (C14-A, C14-B), the
-MIR -> z3 executor (C18-B). What the checks still do not reach is listed as "outside" in each MANIFEST level_note.
+All 57 seeds are caught by a registered check (56 at the quick tier). They came in two rounds. Round 1 (48 seeds): six
+(C11-C, C12-A, C12-B, C14-A, C14-B, C18-B) were missed by the first version of the checks; what closed each gap: map
+identity in the palette side table (C11-C), concrete boundary values plus the chunk-list harness and a counting allocator
+for native replay (C12-A, C12-B), harness readers modelling `read_exact` and the checked cut of `io::Error`'s Custom drop
+glue (C14-A, C14-B), the MIR -> z3 executor (C18-B). Round 2 (9 seeds D/E/F for C11, C12, C14, C18, written by fresh
+sub-agents after those changes, to see whether the new pieces generalise): C11-E, C12-E, C14-D were caught as the checks
+stood; C14-E was caught by C13 only (now also by C14: hard error inside `Chunk::read_all`); C18-D/E/F were reported
+inconclusive (exit 2: calls the MIR executor had no model for) until the models were added; C11-D (name flag tested as a
+whole word) and C12-D (tile list reserved from the declared tilemap size) were missed and got a harness each. What the
+checks still do not reach is listed as "outside" in each MANIFEST level_note.
 """
 s = s[:i] + marker + "\n\nEach seed was produced by a fresh sub-agent that saw only the property text and its own worktree, was confirmed by me (existing 50 tests pass with the change, its demonstration fails with it and passes without), and was then run against the registered checks with the patch applied to a scratch clone of /repo (`vk/campaign.py`; `VERIF_REPO` points the driver at the clone). \n\n" + table + "\n" + MISSES
 open(p, "w").write(s)
